@@ -155,6 +155,8 @@ def sd_to_doc(rng, sd):
 def random_doc(rng):
     while True:
         sd = scen.random_sd(rng)
+        if rng.random() < 0.15:
+            sd = scen.widen_subnet(rng, sd)
         # the documented format wants every cost positive for exploits/escalations, costs >= 0 for scans,
         # one OS per host; discovery values are not part of the format
         ok = all(e["cost"] > 0 for e in sd["exploits"]) and all(p["cost"] > 0 for p in sd["privescs"])
@@ -192,6 +194,12 @@ def m_unknown_section(rng, d):
 
 
 def m_mistype_section(rng, d):
+    ones = [k for k in ("os", "services", "processes") if isinstance(d.get(k), list) and len(d[k]) == 1
+            and isinstance(d[k][0], str)]
+    if ones and rng.random() < 0.5:
+        k = rng.choice(ones)
+        d[k] = d[k][0]          # `os: linux` instead of `os: [linux]`: a string is not a list of names
+        return d
     k = rng.choice(list(d))
     v = d[k]
     d[k] = rng.choice([x for x in ("abc", 3, [1], {"a": 1}, None, 2.5)
@@ -591,7 +599,15 @@ def run(ctx, spec):
     nrandom, per_op = spec["sizes"][tier]
     out = dict(violations=[], evaluations=0, distinct_nontrivial=0, samples=[], correspondence={})
     bases = shipped_docs() + [(f"random{i}", random_doc(rng)) for i in range(nrandom)]
+    for i in range(2 if tier == "quick" else 10):
+        # always some documents with a subnet of more than ten hosts (two-digit host ids in every address position)
+        while True:
+            sd_ = scen.random_sd(rng, max_subnets=3, max_size=2)
+            if all(e["cost"] > 0 for e in sd_["exploits"]) and all(p["cost"] > 0 for p in sd_["privescs"]):
+                break
+        bases.append((f"wide{i}", sd_to_doc(rng, scen.widen_subnet(rng, sd_))))
     items = [(f"valid@{name}", doc) for name, doc in bases]
+    bases = [b for b in bases if not b[0].startswith("wide")]      # the wide documents are compared as they are
     # documented-valid variations (C17's list)
     for name, doc in bases:
         d = copy.deepcopy(doc)
